@@ -21,6 +21,8 @@ typedef struct pnode {
   int state; /* 0 fresh/in use, 1 reclaimed (in free list) */
   struct pnode* free_next;
 } pnode_t;
+static pnode_t* free_arr[128]; /* reclaimed nodes; reuse takes the node that was retired most recently two times out of three */
+static int nfree_arr, reuse_ctr;
 static pnode_t* free_list;
 static int reclaimed_total, reused_total;
 static long pushed_vals[64], popped_vals[64];
@@ -33,15 +35,17 @@ static NS void reclaim_cb(void* gc_data, hazard_node_t* h) {
   p->state = 1;
   /* poison the payload: a thread that still dereferences this node reads garbage pointers */
   memset(&p->n.value, 0xFB, sizeof(p->n.value) + sizeof(p->n.prev) + sizeof(p->n.next));
-  p->free_next = free_list;
-  free_list = p;
+  if (nfree_arr < 128) free_arr[nfree_arr++] = p;
   reclaimed_total++;
 }
 static NS mpmc_fifo_node_t* get_node(void) {
   pnode_t* p;
-  if (free_list) {
-    p = free_list;
-    free_list = p->free_next;
+  if (nfree_arr) {
+    /* a scan hands the most recently retired node to the callback first, so it sits at the bottom */
+    int k = (reuse_ctr++ % 3 == 2) ? nfree_arr - 1 : 0;
+    p = free_arr[k];
+    memmove(&free_arr[k], &free_arr[k + 1], sizeof(free_arr[0]) * (size_t)(nfree_arr - 1 - k));
+    nfree_arr--;
     reused_total++;
   } else {
     p = malloc(sizeof *p);
@@ -103,15 +107,17 @@ void h_run(void) {
   sim_cfg_t c = sim_config(1, 1, 0, FBIT(F_STALL));
   nth = wl_int(2, MAXTH);
   int total = 0, pushes = 0;
-  const int maxops = sim_tier_thorough() ? MAXOPS : 6;
+  const int maxops = sim_tier_thorough() || wl_pct(30) ? MAXOPS : 6;
   for (int t = 0; t < nth; t++) {
     prog[t].n = wl_int(1, maxops);
     for (int i = 0; i < prog[t].n; i++) {
-      prog[t].op[i] = wl_pct(55);
+      prog[t].op[i] = wl_pct(45); /* slightly more pops than pushes: short queues, nodes cycle through quickly */
       pushes += prog[t].op[i];
     }
     total += prog[t].n;
-    warmup[t] = wl_int(0, 2 * (nth + 1) * MPMC_HAZARD_COUNT);
+    /* the scan threshold is 2 * records * slots; half of the time stop just short of it */
+    warmup[t] = wl_pct(50) ? 2 * nth * MPMC_HAZARD_COUNT - wl_int(0, 3) : wl_int(0, 2 * (nth + 1) * MPMC_HAZARD_COUNT);
+    if (warmup[t] < 0) warmup[t] = 0;
   }
   sim_describe("threads=%d ops=%d pushes=%d preempt=1/%d", nth, total, pushes, c.preempt_inv);
   if (nth >= 2 && total >= 3) sim_nontrivial();
